@@ -150,6 +150,14 @@ class fetcher(base.fetcher):
                     os.unlink(path)
                 except OSError:
                     pass
+        # the final attempt may well have completed the file
+        try:
+            self._verify(path, target)
+            return path
+        except errors.ChksumFailure:
+            raise
+        except errors.FetchFailed as exc:
+            last_exc = exc
         raise last_exc
 
     def get_path(self, fetchable):
